@@ -13,7 +13,7 @@ Paths   == {"callback", "refresh", "bearer"}
 \* histories: the SAME token presented twice, valid the first time and past its expiry the second (bearer header / the ID token of a
 \* session that can only be re-validated because the provider refuses the refresh)
 TwicePaths == {"bearer_twice", "validate_twice"}
-Keys    == {"discovery", "static"}
+Keys    == {"discovery", "static", "jwks"}            \* discovery / discovery skipped with PEM key files / with a JWKS URL
 Sigs    == {"right", "otherkey", "algnone", "hs256pub"}
 Issuers == {"match", "other"}
 \* shape of the audience claim (the configured audience claim: aud, or azp when audClaim = "azp")
@@ -25,7 +25,9 @@ EVs     == {"true", "false", "absent"}                  \* standard email_verifi
 \* no_groups: neither token nor profile has groups.  ev_split: token says email_verified = false and lacks groups, profile says true.
 Claims  == {"tok", "email_prof", "groups_prof", "no_groups", "ev_split"}
 
-Cfg == [extraAud : BOOLEAN, audClaim : {"aud", "azp"}, allowUnverified : BOOLEAN, keys : Keys]
+\* claimMap = "custom": the operator configured other claims for e-mail and groups (oidc-email-claim = mail, oidc-groups-claim = roles);
+\* every token carries the standard AND the custom claims with different values: the session must take the configured ones
+Cfg == [extraAud : BOOLEAN, audClaim : {"aud", "azp"}, allowUnverified : BOOLEAN, keys : Keys, claimMap : {"default", "custom"}]
 Tok == [sig : Sigs, iss : Issuers, aud : Auds, exp : Exps, ev : EVs, claims : Claims]
 Good == [sig |-> "right", iss |-> "match", aud |-> "client", exp |-> "future", ev |-> "true", claims |-> "tok"]
 
@@ -44,6 +46,7 @@ Src(t, path, field) ==
       [] field = "pu"     -> IF t.claims = "groups_prof" THEN prof ELSE "tok"
       [] OTHER            -> "tok"
 Req_Identity(t, path) == [user |-> "tok", email |-> Src(t, path, "email"), groups |-> Src(t, path, "groups"), pu |-> Src(t, path, "pu")]
+Req_IdentityCustom     == [user |-> "tok", email |-> "custom", groups |-> "custom", pu |-> "tok"]
 
 \* ---- cases ---------------------------------------------------------------------------------------
 Differs(t) == Cardinality({f \in DOMAIN Good : t[f] # Good[f]})
@@ -52,6 +55,9 @@ InScope(c) ==
     /\ (c.path = "bearer" => c.tok.claims \notin {"email_prof", "ev_split"})
     /\ (c.tok.claims = "ev_split" => c.tok.ev = "false")
     /\ (c.cfg.audClaim = "azp" => ~c.cfg.extraAud)
+    /\ (c.cfg.claimMap = "custom" => /\ c.tok.claims = "tok" /\ c.tok.ev = "true" /\ ~c.cfg.extraAud /\ c.cfg.audClaim = "aud" /\ ~c.cfg.allowUnverified
+                                      /\ c.cfg.keys = "discovery" /\ Differs(c.tok) <= 1)
+    /\ (c.cfg.keys = "jwks" => ~c.cfg.extraAud /\ c.cfg.audClaim = "aud" /\ ~c.cfg.allowUnverified /\ Differs(c.tok) <= 1 /\ c.tok.claims = "tok")
     /\ (Tier = "quick" => /\ Differs(c.tok) <= 1
                           /\ (c.cfg.extraAud \/ c.cfg.audClaim = "azp" => c.tok.aud # "client" \/ c.tok = Good)
                           /\ (c.cfg.allowUnverified => c.tok.ev # "true" \/ c.tok.claims = "ev_split"))
@@ -60,14 +66,14 @@ InScope(c) ==
 VARIABLE c
 Init == \/ \E cfg \in Cfg, t \in Tok, p \in Paths : c = [cfg |-> cfg, tok |-> t, path |-> p] /\ InScope(c)
         \/ \E cfg \in Cfg, p \in TwicePaths : /\ c = [cfg |-> cfg, tok |-> [Good EXCEPT !.exp = "expiring"], path |-> p]
-                                              /\ ~cfg.extraAud /\ cfg.audClaim = "aud" /\ ~cfg.allowUnverified
+                                              /\ ~cfg.extraAud /\ cfg.audClaim = "aud" /\ ~cfg.allowUnverified /\ cfg.claimMap = "default" /\ cfg.keys # "jwks"
 Next == UNCHANGED c
 
 \* acceptability is evaluated at each presentation: what was acceptable once is not acceptable for ever
 CaseRec == [fam |-> "tokens", in |-> c,
             req |-> IF c.path \in TwicePaths THEN [accepted |-> TRUE, acceptedAfterExpiry |-> FALSE, panic |-> FALSE]
                     ELSE IF Req_Acceptable(c.tok, c.cfg, c.path)
-                    THEN [accepted |-> TRUE, identity |-> Req_Identity(c.tok, c.path), panic |-> FALSE]
+                    THEN [accepted |-> TRUE, identity |-> IF c.cfg.claimMap = "custom" THEN Req_IdentityCustom ELSE Req_Identity(c.tok, c.path), panic |-> FALSE]
                     ELSE [accepted |-> FALSE, panic |-> FALSE]]
 EmitVocab == JsonSerialize("vocab.json", Vocab)
 EmitCase  == CSVWrite("%1$s", <<ToJson(CaseRec)>>, "cases.ndjson")
